@@ -2002,6 +2002,8 @@ class Stream(AbstractStream):
         new._property_cache_key = self._property_cache_key
         new.equations = self.equations
         new.characterization_factors = self.characterization_factors
+        for i in ('_streams', '_vle_cache', '_lle_cache', '_sle_cache'): # Multi-phase streams
+            if hasattr(self, i): setattr(new, i, getattr(self, i))
         return new
     
     def empty(self):
